@@ -118,4 +118,12 @@ CHECKS = {
         "documented structural points of the shapes.",
    note="Trusted base: mpmath / scipy wofz-erfcx forms (vf/ref/irf.py), the C05 oracle of effective IRF parameters. F16 (textbook exp x (1+erf) formula) is attributed only when the entry reproduces that formula's own float64 value.",
    technique="runtime monitoring: oracle on real megacomplex evaluations (closed forms + multiprecision convolution), call recorders"),
+ "C06": dict(category="exploration",
+   text="For 22 model families (every builtin megacomplex type x no / Gaussian / shifted / dispersed IRF, alone and combined with shared labels) all non-semantic "
+        "declaration orders are permuted (all permutations in the thorough tier, a seeded sample in quick); each twin is optimised on the same data and every "
+        "result variable is compared BY LABEL with the unpermuted result (cost, penalties as multiset), and the dataset matrix is recomposed from "
+        "single-megacomplex evaluations. Permutations of <= 4 labels / <= 3 megacomplexes are a finite space, so bounded-exhaustive metamorphic execution is the "
+        "right level.",
+   note="Trusted base: xarray label selection; what a label denotes absolutely is judged by C04/C05/C07. Component-numbered outputs are not labels; clp-derived outputs of rank-deficient matrices are skipped.",
+   technique="runtime monitoring: metamorphic (permutation) oracle over results of real optimisations + composition oracle on MatrixProvider; recorders"),
 }
